@@ -213,6 +213,7 @@ def lowered_body(spec, unit, log):
     body = lower.lower_std_move(body, unit.fnslots)
     body = lower.lower_casts(body)
     body = lower.apply_rules(body, lower.GENERIC, log)
+    body = lower.apply_rules(body, lower.ROUTE_IDIOMS, log)
     body = lower.lower_members(body, None)
     sibs = unit.siblings + spec.siblings
     if sibs:
